@@ -194,15 +194,24 @@ def declOf (n : Nat) : Option Bool := if n = 2 then none else some (n == 1)
 
 private def kv (k : String) (v : Nat) : String := k ++ "=" ++ toString v
 
+/-- whitespace separated tokens of a line -/
+def tokens (s : String) : List String :=
+  let step (p : List String × List Char) (c : Char) : List String × List Char :=
+    if c.isWhitespace then (if p.2.isEmpty then p.1 else String.ofList p.2.reverse :: p.1, []) else (p.1, c :: p.2)
+  let (acc, cur) := s.toList.foldl step ([], [])
+  (if cur.isEmpty then acc else String.ofList cur.reverse :: acc).reverse
+
+/-- all tokens as natural numbers, or `none` -/
+def nats (ws : List String) : Option (List Nat) := ws.mapM String.toNat?
+
 /-- One cell. Input (all natural numbers):
 `E decl tc` — element line: declaration code and `std::is_trivially_copyable`;
 `C sT aT N sS decl tc nmc nma nsw td` — container line. Output: `key=value` pairs. -/
 def evalLine (line : String) : String :=
-  let ws := (line.splitOn " ").filter (· ≠ "")
-  match ws with
+  match tokens line with
   | "E" :: rest =>
-    match rest.map String.toNat! with
-    | [decl, tc] =>
+    match nats rest with
+    | some [decl, tc] =>
       let t := Ty.cls (declOf decl) (n2b tc)
       let int := Ty.cls none true            -- a trivially copyable type
       let ntr := Ty.cls none false           -- a non trivially copyable type without declaration
@@ -227,8 +236,8 @@ def evalLine (line : String) : String :=
         kv "trSsFsSv" (b2n (Ty.smallSet (.fixedCapacityVector t 5) (fs less (.smallVector t 5))).isTR)]
     | _ => "error: bad E line"
   | "C" :: rest =>
-    match rest.map String.toNat! with
-    | [sT, aT, N, sS, decl, tc, nmc, nma, nsw, td] =>
+    match nats rest with
+    | some [sT, aT, N, sS, decl, tc, nmc, nma, nsw, td] =>
       let t := Ty.cls (declOf decl) (n2b tc)
       let e : ElemTraits := ⟨t.isTR, n2b nmc, n2b nma, n2b nsw⟩
       let vec := vectorSA sS
